@@ -30,7 +30,7 @@ ANCHORS = []
 WORKERS = {"quick": 12, "thorough": 16}
 WATCHDOG = {"quick": 1200, "thorough": 3400}
 REQUIRED = {"pair:A-has-resonance-B-lacks": 5, "pair:A-cartesian-B-not": 3, "pair:crossing-reader-classes": 5, "hash-seeds>=2": 1, "exact-reproducibility-run": 2,
-            "history-length>=3": 2, "failed-cartesian-read-then-polar-file": 5, "printing-conversion-with-colours-after-a-returning-one": 2, "text-argument-read-after-another-read": 2, "file-converted-again-after-another": 2, "same-bare-resonance-name-different-sub-lines": 2, "fresh-single-runs": 10, **{f"entry:{e}": 3 for e in ENTRIES}, "across-hash-seeds-compared": 3, "all-ordered-file-pairs": 1}
+            "history-length>=3": 2, "failed-cartesian-read-then-polar-file": 5, "printing-conversion-with-colours-after-a-returning-one": 2, "text-argument-read-after-another-read": 2, "same-amplitudes-under-two-event-orders-in-one-process": 2, "file-converted-again-after-another": 2, "same-bare-resonance-name-different-sub-lines": 2, "fresh-single-runs": 10, **{f"entry:{e}": 3 for e in ENTRIES}, "across-hash-seeds-compared": 3, "all-ordered-file-pairs": 1}
 EXHAUSTIVE_NOTE = "all 36 ordered pairs of pool files are run in every tier (entry points rotated over the 25 ordered entry pairs); all ordered triples of 3 files in thorough"
 ASSUMPTIONS = ["inside the fresh interpreters the pure name lookup is memoised per (name, particle-table size); the library's one-time loading of the special particles happens inside each history",
                "the parent cannot instrument the child interpreters with sys.monitoring: anchors are not traced for this property (results are observed at the process boundary)"]
@@ -52,6 +52,10 @@ def pool_models():
         r = random.Random(f"C20-pool-{i}")
         m = A.gen_fourbody(r, ev, picks, dangle=False)
         m["cartesian"] = cart
+        if i in (3, 5):
+            # one more block of spline constants, for a resonance without Gamma parameters (nothing is emitted for it)
+            m["consts"] = [*m["consts"], ("K(1460)bar-::Spline::Min", "0.5"), ("K(1460)bar-::Spline::Max", "2.5"), ("K(1460)bar-::Spline::N", "3"),
+                           ("omega(782)0::Spline::N", "4"), ("omega(782)0::Spline::Min", "0.2"), ("omega(782)0::Spline::Max", "1.2")]
         out.append(m)
     # files 0 and 5 both write the resonance K(1)(1270)bar- as a bare name with its decay on separate lines -- different ones in the two files
     for i, subs in ((0, ["K(1)(1270)bar-{K*(892)bar0{K-,pi+},pi-}"]), (5, ["K(1)(1270)bar-[D]{rho(770)0{pi+,pi-},K-}", "K(1)(1270)bar-{K*(892)bar0{K-,pi+},pi-}"])):
@@ -68,6 +72,7 @@ def resonance_names(model):
     return {r.name for ln in model["lines"] for r in A.resonances(ln["node"])}
 
 
+REARRANGED = N_POOL + 1
 POISON = N_POOL     # index of the pool file that cannot be read to the end (cartesian option on, unknown resonance further down)
 
 
@@ -79,6 +84,12 @@ def write_pool(workdir):
     with open(os.path.join(workdir, f"pool{POISON}.txt"), "w", encoding="utf-8") as f:
         f.write(A.POISON_TEXT)
     models.append({"event": ["D0", "K-", "pi+", "pi+", "pi-"], "lines": [], "params": [], "consts": [], "cartesian": 1, "extras": [], "unreadable": True})
+    # pool file 7: the amplitudes of file 0 under another order of the event type (same particles, other positions)
+    ev = models[0]["event"]
+    twin = dict(models[0], event=[ev[0], *ev[2:], ev[1]])
+    with open(os.path.join(workdir, f"pool{REARRANGED}.txt"), "w", encoding="utf-8") as f:
+        f.write(A.render(twin, random.Random(0), style={"crlf": False, "indent": False, "comments": True, "blank": True}))
+    models.append(twin)
     return models
 
 
@@ -194,6 +205,8 @@ class Runner:
             ctx.hit("history-length>=3")
         if len(hist) == 3 and hist[0] == hist[2] and hist[0][0] != hist[1][0]:
             ctx.hit("file-converted-again-after-another")
+        if {0, REARRANGED} <= set(files):
+            ctx.hit("same-amplitudes-under-two-event-orders-in-one-process")
         if any(e.endswith("_text") for _, e in hist[1:]):
             ctx.hit("text-argument-read-after-another-read")
         if any(e.endswith("_print") for _, e in hist[1:]):
@@ -277,6 +290,10 @@ def run(ctx):
         for i, e in enumerate(ENTRIES):
             jobs.append(([[POISON, e], [[0, 1, 5][i % 3], e]], 0, "failed-read-then-polar-file"))
         jobs.append(([[POISON, "read"], [0, "cpp"], [1, "py"]], 0, "failed-read-then-polar-file"))
+        # the same amplitudes under another order of the event type, one conversion after the other
+        for e in ("cpp", "py"):
+            jobs.append(([[0, e], [REARRANGED, e]], 0, "same-amplitudes-other-event-order"))
+        jobs.append(([[REARRANGED, "read_py"], [0, "cpp"], [REARRANGED, "cpp"]], 0, "same-amplitudes-other-event-order"))
         # the readers given the text instead of the file name, after reads of other files
         jobs.append(([[0, "read_cpp_text"], [1, "read_cpp_text"], [4, "read_py_text"]], 0, "text-argument"))
         jobs.append(([[2, "read_py"], [5, "read_py_text"], [3, "read_cpp_text"]], 1, "text-argument"))
